@@ -141,3 +141,244 @@ def paired_demux_open_writers(c):
     )
     c.mutant("path2 = template2.replace('{name}', name)", "path2 = template1.replace('{name}', name)")
     c.mutant("untrimmed_path2 = untrimmed_paired_output", "untrimmed_path2 = untrimmed_output")
+
+
+# ------------------------------------------------------------------------------ CombinatorialDemultiplexer._open_writers
+# The writers dict is keyed by pairs (name1 | None, name2 | None); the pairs come from itertools.product over the two name
+# lists plus, unless untrimmed pairs are discarded, (None, None), (None, name2) and (name1, None).  A list of such pairs is
+# modelled by its membership relation over name ids (-1 = None): product, the comprehensions, list literals and `+` build the
+# relation from the code; iterating over the list enumerates exactly the members.
+A2B = z3.ArraySort(I, z3.ArraySort(I, B))
+NAMES_IN = z3.Function("NAMES.in", AII, I, I, B)
+NAMES_POS = z3.Function("NAMES.pos", AII, I, I, I)
+K0 = z3.K(I, z3.IntVal(0))
+PAIRMAP_HAS = z3.ArraySort(AII, I, AII, I, B)
+PAIRMAP_VAL = z3.ArraySort(AII, I, AII, I, I)
+TRUSTED.append("itertools.product(a, b) enumerates exactly the pairs of an element of a and an element of b; a list enumerates exactly "
+               "its elements when iterated; names are identified by integer ids (equal ids = the same string), None by -1")
+
+
+def _cache(cx, name):
+    return cx.__dict__.setdefault(name, {})
+
+
+def _in(cx, names, a):
+    """`a` is the id of one of the names; axioms once per list"""
+    ids, n = names.arr, names.n
+    c_ = _cache(cx, "_names_in")
+    key = (ids.get_id(), n.get_id())
+    if key not in c_:
+        c_[key] = True
+        i, x = z3.Int("i!ni"), z3.Int("x!ni")
+        cx.axioms += [z3.ForAll([i], z3.Implies(z3.And(0 <= i, i < n), z3.And(NAMES_IN(ids, n, ids[i]), ids[i] >= 0)), patterns=[ids[i]]),
+                      z3.ForAll([x], z3.Implies(NAMES_IN(ids, n, x), z3.And(0 <= NAMES_POS(ids, n, x), NAMES_POS(ids, n, x) < n,
+                                                                               ids[NAMES_POS(ids, n, x)] == x, x >= 0)), patterns=[NAMES_IN(ids, n, x)])]
+    return NAMES_IN(ids, n, a)
+
+
+def _enum(cx, key, body):
+    """membership array defined by `body(a, b)`, one per key"""
+    c_ = _cache(cx, "_pair_enums")
+    if key not in c_:
+        m = fresh("pairs", A2B)
+        a, b = z3.Int("a!pe"), z3.Int("b!pe")
+        cx.axioms.append(z3.ForAll([a, b], m[a][b] == body(a, b), patterns=[m[a][b]]))
+        c_[key] = m
+    return ObjV("PairEnum", {"mem": c_[key]})
+
+
+def _to_enum(cx, v):
+    if isinstance(v, ObjV) and v.cls == "PairEnum":
+        return v
+    if isinstance(v, ListV):
+        # a literal list: [] or [(None, None)] - the membership relation as a constant array, no axiom needed
+        row0 = z3.K(I, z3.BoolVal(False))
+        m = z3.K(I, row0)
+        for g, it in v.items:
+            if not (z3.is_true(z3.simplify(g)) and isinstance(it, TupV) and len(it.items) == 2 and all(x is None for x in it.items)):
+                raise Unsupported("list of pairs other than (None, None) next to an enumerated pair list")
+            m = z3.Store(m, z3.IntVal(-1), z3.Store(row0, z3.IntVal(-1), z3.BoolVal(True)))
+        return ObjV("PairEnum", {"mem": m})
+    raise Unsupported(f"pair list from {v!r}")
+
+
+def _merge_pair_lists(a, b):
+    ea, eb = isinstance(a, ObjV) and a.cls == "PairEnum", isinstance(b, ObjV) and b.cls == "PairEnum"
+    if ea and isinstance(b, ListV):
+        return a, _to_enum(None, b)
+    if eb and isinstance(a, ListV):
+        return _to_enum(None, a), b
+    return None
+
+
+MERGE_COERCIONS.append(_merge_pair_lists)
+
+
+_install_prev_cd = install
+
+
+def install(world):
+    _install_prev_cd(world)
+
+    def product(ex, st, args, kwargs, node, spec):
+        x, y = args
+        if not (isinstance(x, SeqV) and isinstance(y, SeqV)) or kwargs:
+            raise Unsupported("itertools.product of other than two name lists")
+        cx = ex.cx
+        return _enum(cx, ("product", x.arr.get_id(), x.n.get_id(), y.arr.get_id(), y.n.get_id()), lambda a, b: z3.And(_in(cx, x, a), _in(cx, y, b)))
+    world.builtins["itertools.product"] = product
+
+    def concat(ex, st, l, r, node):
+        l, r = _to_enum(ex.cx, l), _to_enum(ex.cx, r)
+        ml, mr = l.fields["mem"], r.fields["mem"]
+        return _enum(ex.cx, ("concat", ml.get_id(), mr.get_id()), lambda a, b: z3.Or(ml[a][b], mr[a][b]))
+    world.handlers[("PairEnum", "__concat__")] = concat
+
+    def iterate(ex, st, v, args, kwargs, node, spec):
+        k1, k2, n, _ = _enumeration(ex.cx, v)
+        t = z3.Int("t!it")
+        return SeqV(z3.Lambda([t], t), n, lambda x: TupV((_opt_name(k1[x]), _opt_name(k2[x]))))
+    world.handlers[("PairEnum", "__iter__")] = iterate
+
+    prev_dict = world.builtins.get("dict")
+
+    def b_dict(ex, st, args, kwargs, node, spec):
+        if not args and not kwargs and getattr(ex.cx.c, "pair_key_dicts", False):
+            d = ObjV("PairKeyDict", {"has": fresh("emptydict.has", PAIRMAP_HAS), "val": fresh("emptydict.val", PAIRMAP_VAL)})
+            a1, n1, a2, n2 = z3.Const("a1!pd", AII), z3.Int("n1!pd"), z3.Const("a2!pd", AII), z3.Int("n2!pd")
+            st.pc.append(z3.ForAll([a1, n1, a2, n2], z3.Not(z3.Select(d.fields["has"], a1, n1, a2, n2)), patterns=[z3.Select(d.fields["has"], a1, n1, a2, n2)]))
+            return d
+        return prev_dict(ex, st, args, kwargs, node, spec)
+    world.builtins["dict"] = b_dict
+
+    def setitem(ex, st, d, idx, v, node):
+        if not (isinstance(idx, TupV) and len(idx.items) == 2):
+            raise Unsupported("key of a pair-keyed dict that is not a pair")
+        k = _key_part(idx.items[0]) + _key_part(idx.items[1])
+        return ObjV("PairKeyDict", {"has": z3.Store(d.fields["has"], *k, z3.BoolVal(True)), "val": z3.Store(d.fields["val"], *k, v.fields["__id__"])})
+    world.handlers[("PairKeyDict", "__setitem__")] = setitem
+
+
+def _opt_name(i):
+    return Opt(i == -1, StrV(NAME_ARR(i), NAME_N(i)))
+
+
+def _key_part(x):
+    """(array, length) of one component of a pair key; None is (constant array, -1)"""
+    if x is None:
+        return (K0, z3.IntVal(-1))
+    if isinstance(x, Opt):
+        s = as_str(x.val)
+        return (z3.If(x.none, K0, s.arr), z3.If(x.none, -1, s.n))
+    s = as_str(x)
+    return (s.arr, s.n)
+
+
+def _enumeration(cx, v):
+    """what iterating over the pair list yields: positions 0..n-1 hold exactly the members"""
+    m = v.fields["mem"]
+    c_ = _cache(cx, "_pair_iter")
+    if m.get_id() not in c_:
+        k1, k2, n = fresh("enum.k1", AII), fresh("enum.k2", AII), fresh("enum.n", I)
+        pos = z3.Function("enum.pos!%d" % len(c_), I, I, I)
+        t, a, b = z3.Int("t!en"), z3.Int("a!en"), z3.Int("b!en")
+        cx.axioms += [n >= 0,
+                      z3.ForAll([t], z3.Implies(z3.And(0 <= t, t < n), z3.And(m[k1[t]][k2[t]], k1[t] >= -1, k2[t] >= -1)), patterns=[k1[t]]),
+                      z3.ForAll([a, b], z3.Implies(m[a][b], z3.And(0 <= pos(a, b), pos(a, b) < n, k1[pos(a, b)] == a, k2[pos(a, b)] == b)),
+                                patterns=[m[a][b]])]
+        c_[m.get_id()] = (k1, k2, n, pos)
+    return c_[m.get_id()]
+
+
+def comb_spec(cx):
+    demux_open_spec(cx)
+
+    def comprehension(ex, n, st, spec, b, kind, seq):
+        """[(None, x) for x in names] / [(x, None) for x in names]: membership from the element expression"""
+        g = n.generators[0]
+        if not (kind == "seq" and seq[0] == "plain" and not g.ifs and isinstance(g.target, ast.Name) and isinstance(n.elt, ast.Tuple) and len(n.elt.elts) == 2):
+            return None
+        names = seq[1]
+        shape = []
+        for e in n.elt.elts:
+            if isinstance(e, ast.Constant) and e.value is None:
+                shape.append("none")
+            elif isinstance(e, ast.Name) and e.id == g.target.id:
+                shape.append("var")
+            else:
+                return None
+
+        def body(a, b_):
+            cs = [(x == -1) if s_ == "none" else _in(cx, names, x) for s_, x in zip(shape, (a, b_))]
+            if shape == ["var", "var"]:
+                cs.append(a == b_)
+            return z3.And(*cs)
+        return _enum(cx, ("comp", tuple(shape), names.arr.get_id(), names.n.get_id()), body)
+    cx.spec["__comprehension_first__"] = comprehension
+
+    def member(g, a, b):
+        return g.fields["mem"][a][b]
+
+    def id_at(names, j):
+        return names.arr[j]
+
+    def enum_len(g):
+        return _enumeration(cx, g)[2]
+
+    def pair_at(g, t, k):
+        k1, k2, _, _ = _enumeration(cx, g)
+        k = k if isinstance(k, int) else z3.simplify(k).as_long()
+        return _opt_name((k1, k2)[k][t])
+
+    def name_or_none(i):
+        return _opt_name(i)
+
+    def has_pair(d, x, y):
+        return z3.Select(d.fields["has"], *(_key_part(x) + _key_part(y)))
+
+    def pair_writer_on(d, x, y, path, k):
+        p = as_str(path)
+        wid = z3.Select(d.fields["val"], *(_key_part(x) + _key_part(y)))
+        k = k if isinstance(k, int) else z3.simplify(k).as_long()
+        return z3.And(WPATH_ARR[k](wid) == p.arr, WPATH_N[k](wid) == p.n)
+
+    cx.spec.update(member=member, id_at=id_at, enum_len=enum_len, pair_at=pair_at, has_pair=has_pair, pair_writer_on=pair_writer_on, name_or_none=name_or_none)
+
+
+import ast  # noqa
+
+
+@contract("steps.py", "CombinatorialDemultiplexer._open_writers", props=["C15", "C05"])
+def combinatorial_open_writers(c):
+    """a writer for every combination of an R1 and an R2 adapter name, opened on the two templates with {name1} / {name2}
+    replaced; unless untrimmed pairs are discarded also for (None, None), (None, name2) and (name1, None), with `unknown`
+    in the file names"""
+    c.types(adapter_names=NamesT(), adapter_names2=NamesT(), template1=Str, template2=Str, discard_untrimmed=Bool, outfiles=ObjT("OutFilesAbs"))
+    c.pair_key_dicts = True
+    c.runtime = {"module": "cdemux", "name": "combinatorial_open_writers"}
+    c.spec(comb_spec)
+    c.ghost("g_all = list(itertools.product(adapter_names, adapter_names2)) + extra", before="loop:1")
+    F = lambda x: f"(val({x}) if not is_none({x}) else 'unknown')"
+    P = lambda tmpl, x, y: f"{tmpl}.replace('{{name1}}', {F(x)}).replace('{{name2}}', {F(y)})"
+    AT = lambda x, y: (f"has_pair(writers, {x}, {y}) and pair_writer_on(writers, {x}, {y}, {P('template1', x, y)}, 0) and "
+                       f"pair_writer_on(writers, {x}, {y}, {P('template2', x, y)}, 1)")
+    K1, K2 = "pair_at(g_all, t, 0)", "pair_at(g_all, t, 1)"
+    c.loop(1, head="for name1, name2 in list(itertools.product(adapter_names, adapter_names2)) + extra", inv=["0 <= __k1 <= enum_len(g_all)", f"forall(t, 0, __k1, {AT(K1, K2)})"])
+    N1, N2 = "name_or_none(id_at(adapter_names, i))", "name_or_none(id_at(adapter_names2, j))"
+    NONE = "name_or_none(-1)"
+    R = lambda s_: s_.replace("writers", "result")
+    c.ensures(
+        every_combination_of_an_R1_and_an_R2_name_is_enumerated=
+        f"forall(i, 0, len(adapter_names), forall(j, 0, len(adapter_names2), member(g_all, id_at(adapter_names, i), id_at(adapter_names2, j))))",
+        a_writer_for_every_combination_of_an_R1_and_an_R2_name=
+        f"forall(i, 0, len(adapter_names), forall(j, 0, len(adapter_names2), implies(member(g_all, id_at(adapter_names, i), id_at(adapter_names2, j)), {R(AT(N1, N2))})))",
+        unless_discarded_a_writer_for_pairs_without_any_match=
+        f"implies(not discard_untrimmed, member(g_all, -1, -1) and {R(AT(NONE, NONE))})",
+        unless_discarded_a_writer_for_every_R2_name_with_R1_unmatched=
+        f"implies(not discard_untrimmed, forall(j, 0, len(adapter_names2), member(g_all, -1, id_at(adapter_names2, j)) and {R(AT(NONE, N2))}))",
+        unless_discarded_a_writer_for_every_R1_name_with_R2_unmatched=
+        f"implies(not discard_untrimmed, forall(i, 0, len(adapter_names), member(g_all, id_at(adapter_names, i), -1) and {R(AT(N1, NONE))}))",
+    )
+    c.mutant("extra += [(name1, None) for name1 in adapter_names]", "extra += [(name1, None) for name1 in adapter_names2]")
+    c.mutant("path2 = template2.replace('{name1}', fname1)", "path2 = template1.replace('{name1}', fname1)")
+    c.mutant("fname2 = name2 if name2 is not None else 'unknown'", "fname2 = name2 if name2 is not None else 'unknown2'")
